@@ -27,6 +27,13 @@ fn main() {
     unsafe { libc::signal(libc::SIGPIPE, libc::SIG_DFL) };
     let stdout = std::io::stdout();
     let mut out = stdout.lock();
+    if script.is_none() && std::env::var_os("CHILDSTUB_STRICT").is_some() {
+        // the harness scripted every file it expects to reach a child: being here means a
+        // file went through the command that should have been searched directly
+        let _ = out.write_all(b"foo: childstub was run on a file it has no script for\n");
+        let _ = out.flush();
+        std::process::exit(3);
+    }
     let Some(script) = script else {
         let mut data = vec![];
         if let Ok(mut f) = std::fs::File::open(&path) {
